@@ -10,7 +10,7 @@ from harness.scripted import explore, run_scripted
 from checks import c19
 
 HASHSEEDS = ["0", "1", "2", "3", "random"]
-CONT = simruns.SIR_CONT + simruns.SIS_CONT + ["simple_contagion_tuple_statuses", "simple_contagion_many_statuses", "simple_contagion_directed",
+CONT = simruns.SIR_CONT + simruns.SIS_CONT + ["nonMarkov_fixed_delays_SIS", "nonMarkov_fixed_delays_SIR", "simple_contagion_tuple_statuses", "simple_contagion_many_statuses", "simple_contagion_directed",
                                                "fast_SIR+R0", "Gillespie_SIR+R0", "fast_nonMarkov_SIR+R0",
                                                "fast_SIR+R0default", "fast_nonMarkov_SIR+R0default", "Gillespie_SIR+R0default"]
 
@@ -113,7 +113,8 @@ def main():
             if mode + ":hidden" in base:
                 chk.violation("%s|entropy-source|%s" % (sc["sim"], base[mode + ":hidden"]), "the simulator requested entropy from %s" % base[mode + ":hidden"], {"scenario": sc})
         # flag independence: the arrays implied by the full-data object equal the arrays of the plain call
-        if sc["sim"] in CONT:
+        # (not for the fixed-latency scenarios: a summary merges simultaneous events into one row)
+        if sc["sim"] in CONT and not sc["sim"].startswith("nonMarkov_fixed_delays"):
             tid = sid * 10 + 2
             traces.append({"id": tid, "det": True, "env0": {"args": 1, "seed": 1},
                            "rows": [{"result": tab(base["arrays:arrays"]), "env": {"args": 1, "seed": 1}},
